@@ -248,7 +248,7 @@ theorem calcSubs_nil' (f : Nat) (prior : Bool) (range : Option (Int × Int)) (cs
     calcSubs (f + 1) ([] : List (Ind F)) prior range cs = .ok cs := by
   rw [calcSubs]; simp
 
-theorem calcSubs_cons_idx (f : Nat) (s : Ind F) (rest : List (Ind F)) (prior : Bool) (a b : Int)
+theorem calcSubs_cons_range (f : Nat) (s : Ind F) (rest : List (Ind F)) (prior : Bool) (a b : Int)
     (cs : List (Candle F)) :
     calcSubs (f + 1) (s :: rest) prior (some (a, b)) cs =
       (if s.priorCalc == prior then
@@ -601,7 +601,7 @@ theorem engineDrop (hL : 1 ≤ L) : ∀ f' f : Nat, f' ≤ f → EngineDrop (F :
       | nil => rw [calcSubs_nil'] at h' h; cases h'; cases h; rfl
       | cons x rest =>
         rw [Ind.lbL_cons] at hlb
-        rw [calcSubs_cons_idx] at h' h
+        rw [calcSubs_cons_range] at h' h
         have c1 : (s - (d : Int) != 0 && e - (d : Int) != 0) = true := by
           simp only [bne_iff_ne, ne_eq, Bool.and_eq_true, decide_eq_true_eq]; omega
         have c2 : (s != 0 && e != 0) = true := by
